@@ -160,11 +160,11 @@ Qed.
 
 (* ---- the whole of gemm_impl ---- *)
 Theorem gemm_impl_correct P bb kb m n k alpha beta bs A B la rb o i j :
-  params_okb P = true -> 0 < bb -> 0 < kb ->
+  (m <> 0 -> n <> 0 -> k <> 0 -> params_okb P = true) -> 0 < bb -> 0 < kb ->
   gemm_impl K P bb kb m n k alpha beta bs A B la rb o i j =
   gemm_spec K alpha beta bs A B m n k o i j.
 Proof.
-  intros Pok Hbb Hkb. unfold gemm_impl.
+  intros Pok0 Hbb Hkb. unfold gemm_impl.
   destruct ((m =? 0) || (n =? 0)) eqn:E0.
   { unfold gemm_spec. apply orb_true_iff in E0. rewrite !N.eqb_eq in E0.
     replace ((i <? m) && (j <? n)) with false; [reflexivity|].
@@ -172,6 +172,8 @@ Proof.
   destruct (k =? 0) eqn:Ek.
   { apply N.eqb_eq in Ek. subst k. apply gemm_k0_correct. }
   apply N.eqb_neq in Ek. assert (Hk : 0 < k) by lia.
+  assert (Pok : params_okb P = true).
+  { apply orb_false_iff in E0. rewrite !N.eqb_neq in E0. apply Pok0; tauto. }
   match goal with |- (if ?c then _ else _) i j = _ => destruct c eqn:Ev end.
   { apply andb_true_iff in Ev. destruct Ev as [Ev _]. apply andb_true_iff in Ev.
     destruct Ev as [Em _]. apply N.eqb_eq in Em. subst m.
@@ -189,7 +191,7 @@ Qed.
 
 Section Corollaries.
 Variables (P : params) (bb kb m n k : N) (alpha beta : K) (bs : bias K) (A B : mat K).
-Hypothesis Pok : params_okb P = true.
+Hypothesis Pok : m <> 0 -> n <> 0 -> k <> 0 -> params_okb P = true.
 Hypothesis Hbb : 0 < bb.
 Hypothesis Hkb : 0 < kb.
 
